@@ -311,6 +311,7 @@ class BodyPartReader:
             raise ValueError(f"invalid Content-Length: {length!r}")
         self._length = int(length) if length is not None else None
         self._read_bytes = 0
+        self._read_partial = bytearray()
         self._b64_carry = b""
         self._decompressor: ZLibDecompressor | None = None
         self._unread: deque[bytes] = deque()
@@ -345,9 +346,16 @@ class BodyPartReader:
         """
         if self._at_eof:
             return b""
-        data = bytearray()
+        data = self._read_partial
+        self._read_partial = bytearray()
         while not self._at_eof:
-            data.extend(await self.read_chunk(self.chunk_size))
+            try:
+                data.extend(await self.read_chunk(self.chunk_size))
+            except BaseException:
+                # Don't lose what was already collected, the next read()
+                # goes on from it.
+                self._read_partial = data
+                raise
             if 0 < self._client_max_size < len(data):
                 raise self._max_size_error_cls(self._client_max_size)
         # https://github.com/python/mypy/issues/17537
